@@ -320,6 +320,26 @@ theorem reduced_state_has_flat_spectrum (m : Nat) (t : Tab) (rem : List Nat) (hn
         = (2 : ℂ) ^ (Module.finrank (ZMod 2) ↥((STab.ofTab t).gspace ⊓ idOnSub t.n rem)) / 2 ^ m :=
   reduced_state_flat m t rem hn hv hr hpw hlt
 
+/-- **the entanglement entropy of a graph state across a cut is the GF(2) rank of the adjacency block joining the two sides**
+    (Hein–Eisert–Briegel; every n, every symmetric adjacency relation, vertex order as given): the reduced state of the
+    vertices `k+1..n−1` is `2^{−r}` times a projector of rank `2^r`, `r = rank_{GF(2)} A[{0..k}, {k+1..n−1}]` -/
+theorem graph_state_cut_entropy_is_adjacency_rank (m n k : Nat) (adj : Nat → Nat → Bool)
+    (hsym : ∀ i j, i < n → j < n → adj i j = adj j i) (hn : n = m + (leftSites k).length) :
+    ptraceList (leftSites k) (rho (m + (leftSites k).length) (graphSTab n adj))
+        * ptraceList (leftSites k) (rho (m + (leftSites k).length) (graphSTab n adj))
+      = ((2 : ℂ) ^ (-((cutBlock n k adj).rank : ℤ))) • ptraceList (leftSites k) (rho (m + (leftSites k).length) (graphSTab n adj)) ∧
+    Matrix.trace (ptraceList (leftSites k) (rho (m + (leftSites k).length) (graphSTab n adj))
+        * ptraceList (leftSites k) (rho (m + (leftSites k).length) (graphSTab n adj)))
+      = (2 : ℂ) ^ (-((cutBlock n k adj).rank : ℤ)) := by
+  have hk : k < n := by rw [hn, leftSites_length]; omega
+  have h := height_is_entanglement_entropy m (graphSTab n adj) k hn (graphSTab_good' n adj hsym) _ (graph_height_list n adj)
+  have hget : ((List.range n).map fun (k : Nat) => Int.ofNat (cutBlock n k adj).rank).getD k 0
+      = ((cutBlock n k adj).rank : ℤ) := by
+    rw [List.getD_eq_getElem?_getD, List.getElem?_map, List.getElem?_range hk]
+    rfl
+  rw [hget] at h
+  exact ⟨h.1, h.2.2.1⟩
+
 /-- `lin3` (linear cluster state, re-gauged): `height_func_list = [1, 1, 0]`, so the reduced state of qubits 1,2 has purity
     `2^{-1}` and that of qubit 2 alone purity `2^{-1}` — the hypotheses of `height_is_entanglement_entropy` are met -/
 example : Matrix.trace (ptraceList (leftSites 0) (rho (2 + (leftSites 0).length) lin3)
